@@ -26,6 +26,8 @@ type Query struct {
 	Seconds float64
 	Output  string
 	Script  string
+	ScriptG string
+	Hints   map[string][]*Term
 	MNames  []string
 }
 
@@ -89,6 +91,42 @@ func (s *State) clone() *State {
 	return n
 }
 
+func substVal(v Val, m map[string]*Term) Val {
+	if v.A != nil || len(v.L) == 0 {
+		return v
+	}
+	n := v
+	n.L = make([]*Term, len(v.L))
+	for i, l := range v.L {
+		n.L[i] = Subst(l, m)
+	}
+	return n
+}
+
+// substitute replaces input variables by terms throughout the state.
+func (s *State) substitute(m map[string]*Term) {
+	for k, v := range s.regs {
+		s.regs[k] = substVal(v, m)
+	}
+	for k, v := range s.locals {
+		s.locals[k] = substVal(v, m)
+	}
+	for k, v := range s.heap {
+		s.heap[k] = Subst(v, m)
+	}
+	for k, v := range s.ghost {
+		s.ghost[k] = Subst(v, m)
+	}
+	var pc []*Term
+	for _, t := range s.pc {
+		t2 := Subst(t, m)
+		if !t2.IsTrue() {
+			pc = append(pc, t2)
+		}
+	}
+	s.pc = pc
+}
+
 func (s *State) assume(t *Term) {
 	if t.IsTrue() {
 		return
@@ -133,12 +171,27 @@ type Exec struct {
 type effects struct {
 	locals map[*ssa.Alloc]bool
 	heap   map[string]bool // heap keys (leaf-level)
+	refs   map[string][]*Term // refs written per key (nil entry = whole array)
+	whole  map[string]bool
 	all    bool
 	ghost  map[string]bool
 }
 
 func newEffects() *effects {
-	return &effects{locals: map[*ssa.Alloc]bool{}, heap: map[string]bool{}, ghost: map[string]bool{}}
+	return &effects{locals: map[*ssa.Alloc]bool{}, heap: map[string]bool{}, ghost: map[string]bool{}, refs: map[string][]*Term{}, whole: map[string]bool{}}
+}
+
+// effHeap records a write to heap key k at object/backing-store ref (nil: unknown).
+func (x *Exec) effHeap(k string, ref *Term) {
+	if !x.dry {
+		return
+	}
+	x.dryEff.heap[k] = true
+	if ref == nil {
+		x.dryEff.whole[k] = true
+	} else {
+		x.dryEff.refs[k] = append(x.dryEff.refs[k], ref)
+	}
 }
 
 // ---------------------------------------------------------------- engine-level helpers
@@ -338,9 +391,7 @@ func (x *Exec) storeAddr(st *State, a *Addr, v Val) {
 				nv = Store(Select(arr, a.Ref), a.ArrIdx, nv)
 			}
 			st.heap[k] = Store(arr, a.Ref, nv)
-			if x.dry {
-				x.dryEff.heap[k] = true
-			}
+			x.effHeap(k, a.Ref)
 		}
 	case AElem:
 		all := x.tc.leaves(a.contT)
@@ -353,9 +404,7 @@ func (x *Exec) storeAddr(st *State, a *Addr, v Val) {
 				nv = Store(Select(inner, a.Idx), a.ArrIdx, nv)
 			}
 			st.heap[k] = Store(arr, a.Ref, Store(inner, a.Idx, nv))
-			if x.dry {
-				x.dryEff.heap[k] = true
-			}
+			x.effHeap(k, a.Ref)
 		}
 	case AGlobal:
 		all := x.tc.leaves(a.contT)
@@ -367,9 +416,7 @@ func (x *Exec) storeAddr(st *State, a *Addr, v Val) {
 			} else {
 				st.heap[k] = v.L[i]
 			}
-			if x.dry {
-				x.dryEff.heap[k] = true
-			}
+			x.effHeap(k, nil)
 		}
 	}
 }
@@ -744,13 +791,91 @@ func labelOr(c Clause, d string) string {
 // loopEffects: what one traversal of the loop body may write (computed by an
 // abstract single visit of every body block, with branching unconstrained).
 func (x *Exec) loopEffects(st *State, fr *Frame, head *ssa.BasicBlock) *effects {
+	eff1 := x.dryPass(st.clone(), fr, head)
+	// second pass from a state in which everything the loop may write is
+	// already unknown: a ref that is still built only from pre-loop symbols is
+	// loop-invariant, and the havoc can be limited to that object
+	start := x.E.nfresh
+	s2 := st.clone()
+	savedRefs := eff1.refs
+	eff1.refs = nil
+	x.havoc(s2, fr, eff1)
+	eff1.refs = savedRefs
+	eff2 := x.dryPass(s2, fr, head)
+	eff := eff1
+	for k := range eff2.heap {
+		eff.heap[k] = true
+	}
+	for al := range eff2.locals {
+		eff.locals[al] = true
+	}
+	for g := range eff2.ghost {
+		eff.ghost[g] = true
+	}
+	eff.all = eff.all || eff2.all
+	eff.refs = map[string][]*Term{}
+	for k := range eff.heap {
+		if eff2.whole[k] || eff1.whole[k] {
+			eff.whole[k] = true
+			continue
+		}
+		seen := map[string]bool{}
+		for _, r := range eff2.refs[k] {
+			kind := x.refKind(r, start)
+			if kind == "variant" {
+				eff.whole[k] = true
+				break
+			}
+			if kind == "fresh" || seen[r.String()] {
+				continue
+			}
+			seen[r.String()] = true
+			eff.refs[k] = append(eff.refs[k], r)
+		}
+		if _, wrote := eff2.refs[k]; !wrote && !eff.whole[k] && len(eff1.refs[k]) > 0 {
+			// written only in the first pass (should not happen): be conservative
+			eff.whole[k] = true
+		}
+	}
+	return eff
+}
+
+// refKind classifies a ref term: "invariant" (only pre-loop symbols),
+// "fresh" (an object allocated inside the loop body) or "variant".
+func (x *Exec) refKind(r *Term, start int) string {
+	kind := "invariant"
+	var walk func(t *Term)
+	walk = func(t *Term) {
+		if t.Op == "var" {
+			if i := strings.LastIndex(t.Name, "!"); i >= 0 {
+				var n int
+				if _, err := fmt.Sscanf(t.Name[i+1:], "%d", &n); err == nil && n > start {
+					if strings.HasPrefix(t.Name, "new!") && t == r {
+						if kind == "invariant" {
+							kind = "fresh"
+						}
+					} else {
+						kind = "variant"
+					}
+				}
+			}
+		}
+		for _, a := range t.Args {
+			walk(a)
+		}
+	}
+	walk(r)
+	return kind
+}
+
+func (x *Exec) dryPass(ds *State, fr *Frame, head *ssa.BasicBlock) *effects {
 	saveDry, saveEff := x.dry, x.dryEff
 	eff := newEffects()
 	x.dry, x.dryEff = true, eff
-	ds := st.clone()
 	ds.pc = nil
 	dfr := *fr
 	dfr.ret = func(*State, []Val) {}
+	dfr.callOrd = nil
 	visited := map[*ssa.BasicBlock]bool{}
 	body := fr.loops.body[head]
 	var visit func(b *ssa.BasicBlock, pred *ssa.BasicBlock, s *State)
@@ -844,9 +969,20 @@ func (x *Exec) havoc(st *State, fr *Frame, eff *effects) {
 		}
 	}
 	for k := range eff.heap {
-		if a, ok := st.heap[k]; ok {
-			st.heap[k] = x.E.fresh("hv"+sanitize(k), a.S)
+		a, ok := st.heap[k]
+		if !ok {
+			continue
 		}
+		if !eff.whole[k] && a.S.K == SArr && eff.refs != nil {
+			if rs, has := eff.refs[k]; has || len(rs) == 0 {
+				for _, r := range rs {
+					a = Store(a, r, x.E.fresh("hv"+sanitize(k), a.S.E))
+				}
+				st.heap[k] = a
+				continue
+			}
+		}
+		st.heap[k] = x.E.fresh("hv"+sanitize(k), a.S)
 	}
 	for k := range eff.ghost {
 		if a, ok := st.ghost[k]; ok {
